@@ -110,7 +110,7 @@ func (round *round1) Update() (bool, *tss.Error) {
 		r1msg := round.temp.dgRound1Messages[0].Content().(*DGRound1Message)
 		candidate, err := r1msg.UnmarshalEDDSAPub(round.Params().EC())
 		if err != nil {
-			return false, round.WrapError(errors.New("unable to unmarshal the eddsa pub key"), msg.GetFrom())
+			return false, round.WrapError(errors.New("unable to unmarshal the eddsa pub key"), round.temp.dgRound1Messages[0].GetFrom())
 		}
 		if round.save.EDDSAPub != nil &&
 			!candidate.Equals(round.save.EDDSAPub) {
